@@ -22,6 +22,7 @@ import inspect, json
 import numpy as np
 from .. import core, iso, catalog, specs
 from . import c10_misc
+from . import c10_surf
 
 ID = 'C10'
 LEVEL = 'other'
@@ -504,6 +505,8 @@ def _model2_line_and_direct(case):
         return (f"c10 kind=cwnb shape={_csv(q['shape'])} bshape={_csv(q['bshape'])}",) + _py_cwnb(q['shape'], q['bshape']) + ({},)
     if w in c10_misc.KINDS:        # round 3: histogram, lbp map, bbox, relabel / remove_regions, distance_multi
         return c10_misc.line_and_direct(w, q)
+    if w in c10_surf.KINDS:          # round 3 (B9 SURF)
+        return c10_surf.line_and_direct(w, q)
     raise core.Infra(f'unknown model2 kind {w}')
 
 
@@ -594,7 +597,8 @@ def evaluate(cases):
     for c in cases:
         k = c.get('kind', 'sweep')
         out.append(_eval_filter(c) if k == 'filter' else _eval_model(c) if k == 'model' else _eval_model2(c) if k == 'model2' else
-                   _eval_zoomshift_real(c) if k == 'zoomshift' else c10_misc.eval_real(c, SRC) if k == 'miscreal' else _eval_sweep(c))
+                   _eval_zoomshift_real(c) if k == 'zoomshift' else c10_misc.eval_real(c, SRC) if k == 'miscreal' else
+                   c10_surf.evaluate_real(c) if k == 'surfreal' else _eval_sweep(c))
     return out
 
 
@@ -770,6 +774,7 @@ def cases(rng, tier):
         # round 3 (appended last again)
         out += c10_misc.model_cases(rng, dict(quick=300, thorough=3000, search=0)[tier])
         out += c10_misc.real_cases(rng, dict(quick=150, thorough=1500, search=0)[tier])
+        out += c10_surf.cases(rng, tier)       # round 3 (B9 SURF), appended last: the stream above is unchanged
     return out
 
 
